@@ -94,6 +94,18 @@ def handle : List Sx → Sx
       | .rows ids => .list (.atom "rows" :: ids.map sxNat)
       | .panic => .list [.atom "panic"]
     | _, _, _, _, _ => .atom "bad-request"
+  | [.atom "assign", .atom ty, .atom v] =>
+    -- `(assign smallint|integer|bigint|unsigned <int>)` → `(ok I<v>)` | `(reject)`
+    let t : Option ColTy := match ty with
+      | "smallint" => some .smallint | "integer" => some .integer
+      | "bigint" => some .bigint | "unsigned" => some .unsigned
+      | _ => none
+    match t, v.toInt? with
+    | some t, some i =>
+      match coerceTo t i with
+      | some j => .list [.atom "ok", .atom ("I" ++ toString j)]
+      | none => .list [.atom "reject"]
+    | _, _ => .atom "bad-request"
   | _ => .atom "bad-request"
 
 def main : IO Unit := runDriver handle
